@@ -1,7 +1,379 @@
-"""Tie B for C10 (placeholder until the property's translator is written): writes an empty
-coq/theories/Gen/GenC10.v so that the project builds."""
+"""Tie B for C10: regenerate coq/theories/Gen/GenC10.v from the CURRENT source of
+  pypyr/context.py     Context.merge (its nested merge_recurse) and Context.set_defaults
+                       (its nested defaults_recurse): the loop body — the type dispatch, which
+                       value is formatted when, what is assigned / extended / recursed into;
+  pypyr/utils/types.py are_all_this_type (checked to be all(isinstance(o, T) for o in objects));
+  pypyr/dsl.py         the subclasses of SpecialTagDirective;
+  pypyr/steps/contextmerge.py, pypyr/steps/default.py   run_step.
+
+What is generated is the SYNTAX TREE of each loop body in the little statement language of
+Model/Merge.v ([pstmt] / [pcond] / [pexpr]) with the local names resolved; its meaning is
+[Merge.run_item]; Proofs/GenC10Proofs.v proves it equal to the hand-written model for all inputs.
+
+Accepted shape (anything else is fail-closed: the definition comes out as <name>_UNTRANSLATED
+with the reason in a comment, so Proofs/GenC10Proofs.v stops compiling):
+
+  def outer(self, INC):                      # Context.merge / Context.set_defaults
+      [docstring]
+      def inner(CUR, INC2):
+          [docstring]
+          for K, V in INC2.items():
+              <statements>
+      inner(self, INC)
+
+  statements:  K = <expr>                         SRebindKey
+               CUR[K] = <expr>                    SSetItem
+               CUR[K].extend(<expr>)              SExtend
+               inner(CUR[K], V)                   SRecurse
+               if/elif/else                       SIf    (an if-body ending in `continue`
+                                                          takes the rest of the block as its else)
+               pass, docstrings                   dropped
+  expressions: K, V, CUR[K], self.get_formatted_value(e), e + e, e | e
+  conditions:  isinstance(e, C | (C1, C2..)), types.are_all_this_type(C, e1, ..), K in CUR,
+               K not in CUR, not c, c or c, c and c
+  class names must be builtins (str, bytes, bytearray, list, tuple) or be imported by context.py
+  as `from collections.abc import Mapping, Set` / `from pypyr.dsl import SpecialTagDirective`.
+
+  steps: run_step(context) = [docstring; logger.*(constants only) dropped]
+               context.assert_key_has_value(key='X', caller=__name__)
+               context.<method>(context['Y'])
+               logger.info(<constant>, len(context['Z']))      -> the len() argument is kept
+
+The file is rewritten only when its text changes.
+"""
+import ast
+import os
 from pathlib import Path
+
+REPO = Path(os.environ.get('VERIF_REPO', '/repo'))
 OUT = Path(__file__).resolve().parent.parent / 'coq' / 'theories' / 'Gen' / 'GenC10.v'
-TEXT = '(* Gen/GenC10.v - placeholder *)\n'
-if not OUT.exists() or OUT.read_text() != TEXT:
-    OUT.write_text(TEXT)
+
+BUILTIN_CLASSES = {'str', 'bytes', 'bytearray', 'list', 'tuple'}
+IMPORTED_CLASSES = {'Mapping': 'collections.abc', 'Set': 'collections.abc',
+                    'SpecialTagDirective': 'pypyr.dsl'}
+
+
+class Untranslatable(Exception):
+    pass
+
+
+def coq_str(s):
+    if any(ord(c) < 32 or ord(c) > 126 for c in s):
+        raise Untranslatable('non-printable constant')
+    return '"' + s.replace('"', '""') + '"'
+
+
+def coq_list(xs):
+    return '[' + '; '.join(xs) + ']'
+
+
+def is_doc(st):
+    return isinstance(st, ast.Expr) and isinstance(st.value, ast.Constant) and isinstance(st.value.value, str)
+
+
+def strip(stmts):
+    return [st for st in stmts if not is_doc(st) and not isinstance(st, ast.Pass)]
+
+
+def find(body, kind, name):
+    for n in body:
+        if isinstance(n, kind) and n.name == name:
+            return n
+    raise Untranslatable(f'{name} not found')
+
+
+def imports_of(tree):
+    """name -> module it is imported from (from-imports only)"""
+    out = {}
+    for n in tree.body:
+        if isinstance(n, ast.ImportFrom):
+            for a in n.names:
+                out[a.asname or a.name] = n.module
+    return out
+
+
+class Loop:
+    """translate the body of `for K, V in INC.items()` of one inner function"""
+
+    def __init__(self, inner_name, cur, k, v, known_classes):
+        self.inner, self.cur, self.k, self.v = inner_name, cur, k, v
+        self.known = known_classes
+
+    def is_cur_k(self, e):
+        return (isinstance(e, ast.Subscript) and isinstance(e.value, ast.Name) and e.value.id == self.cur
+                and isinstance(e.slice, ast.Name) and e.slice.id == self.k)
+
+    def cls(self, e):
+        if not isinstance(e, ast.Name):
+            raise Untranslatable('class expression ' + ast.unparse(e))
+        if e.id not in self.known:
+            raise Untranslatable(f'class {e.id} is neither a builtin the model knows nor imported as expected')
+        return e.id
+
+    def expr(self, e):
+        if isinstance(e, ast.Name) and isinstance(e.ctx, ast.Load):
+            if e.id == self.k:
+                return 'PKey'
+            if e.id == self.v:
+                return 'PVal'
+            raise Untranslatable(f'name {e.id}')
+        if self.is_cur_k(e) and isinstance(e.ctx, ast.Load):
+            return 'PCurK'
+        if isinstance(e, ast.Call) and isinstance(e.func, ast.Attribute) and isinstance(e.func.value, ast.Name) \
+                and e.func.value.id == 'self' and e.func.attr == 'get_formatted_value' \
+                and len(e.args) == 1 and not e.keywords:
+            return f'(PFmt {self.expr(e.args[0])})'
+        if isinstance(e, ast.BinOp) and isinstance(e.op, ast.Add):
+            return f'(PAdd {self.expr(e.left)} {self.expr(e.right)})'
+        if isinstance(e, ast.BinOp) and isinstance(e.op, ast.BitOr):
+            return f'(PBitOr {self.expr(e.left)} {self.expr(e.right)})'
+        raise Untranslatable('expression ' + ast.unparse(e))
+
+    def cond(self, c):
+        if isinstance(c, ast.UnaryOp) and isinstance(c.op, ast.Not):
+            return f'(CNot {self.cond(c.operand)})'
+        if isinstance(c, ast.BoolOp):
+            parts = [self.cond(x) for x in c.values]
+            op = 'COr' if isinstance(c.op, ast.Or) else 'CAnd'
+            acc = parts[-1]
+            for p in reversed(parts[:-1]):
+                acc = f'({op} {p} {acc})'
+            return acc
+        if isinstance(c, ast.Compare) and len(c.ops) == 1 and isinstance(c.left, ast.Name) and c.left.id == self.k \
+                and isinstance(c.comparators[0], ast.Name) and c.comparators[0].id == self.cur:
+            if isinstance(c.ops[0], ast.In):
+                return 'CKeyIn'
+            if isinstance(c.ops[0], ast.NotIn):
+                return '(CNot CKeyIn)'
+        if isinstance(c, ast.Call) and isinstance(c.func, ast.Name) and c.func.id == 'isinstance' \
+                and len(c.args) == 2 and not c.keywords:
+            t = c.args[1]
+            classes = [self.cls(x) for x in t.elts] if isinstance(t, ast.Tuple) else [self.cls(t)]
+            return f'(CIsInst {self.expr(c.args[0])} {coq_list([coq_str(x) for x in classes])})'
+        if isinstance(c, ast.Call) and isinstance(c.func, ast.Attribute) and isinstance(c.func.value, ast.Name) \
+                and c.func.value.id == 'types' and c.func.attr == 'are_all_this_type' \
+                and len(c.args) >= 2 and not c.keywords \
+                and not any(isinstance(x, ast.Starred) for x in c.args):
+            return (f'(CAllType {coq_str(self.cls(c.args[0]))} '
+                    f'{coq_list([self.expr(x) for x in c.args[1:]])})')
+        raise Untranslatable('condition ' + ast.unparse(c))
+
+    def block(self, stmts):
+        stmts = strip(stmts)
+        out = []
+        for i, st in enumerate(stmts):
+            if isinstance(st, ast.If):
+                body, orelse = strip(st.body), strip(st.orelse)
+                if body and isinstance(body[-1], ast.Continue) and not orelse:
+                    # if c: A; continue / REST   ==   if c: A else: REST
+                    out.append(f'SIf {self.cond(st.test)} {self.block(body[:-1])} {self.block(stmts[i + 1:])}')
+                    return coq_list(out)
+                out.append(f'SIf {self.cond(st.test)} {self.block(body)} {self.block(orelse)}')
+            elif isinstance(st, ast.Assign) and len(st.targets) == 1:
+                t = st.targets[0]
+                if isinstance(t, ast.Name) and t.id == self.k:
+                    out.append(f'SRebindKey {self.expr(st.value)}')
+                elif self.is_cur_k(t):
+                    out.append(f'SSetItem {self.expr(st.value)}')
+                else:
+                    raise Untranslatable('assignment to ' + ast.unparse(t))
+            elif isinstance(st, ast.Expr) and isinstance(st.value, ast.Call):
+                c = st.value
+                if isinstance(c.func, ast.Attribute) and c.func.attr == 'extend' and self.is_cur_k(c.func.value) \
+                        and len(c.args) == 1 and not c.keywords:
+                    out.append(f'SExtend {self.expr(c.args[0])}')
+                elif isinstance(c.func, ast.Name) and c.func.id == self.inner and len(c.args) == 2 \
+                        and not c.keywords and self.is_cur_k(c.args[0]) \
+                        and isinstance(c.args[1], ast.Name) and c.args[1].id == self.v:
+                    out.append('SRecurse')
+                else:
+                    raise Untranslatable('call ' + ast.unparse(c))
+            else:
+                raise Untranslatable(f'statement {type(st).__name__}: ' + ast.unparse(st)[:60])
+        return coq_list(out)
+
+
+def loop_body(ctx_tree, method, known):
+    cls = find(ctx_tree.body, ast.ClassDef, 'Context')
+    outer = find(cls.body, ast.FunctionDef, method)
+    params = [a.arg for a in outer.args.args]
+    if len(params) != 2 or params[0] != 'self' or outer.args.vararg or outer.args.kwarg or outer.args.kwonlyargs:
+        raise Untranslatable(f'{method}: signature')
+    body = strip(outer.body)
+    if len(body) != 2 or not isinstance(body[0], ast.FunctionDef):
+        raise Untranslatable(f'{method}: expected one nested function and one call')
+    inner, call = body
+    ok_call = (isinstance(call, ast.Expr) and isinstance(call.value, ast.Call)
+               and isinstance(call.value.func, ast.Name) and call.value.func.id == inner.name
+               and len(call.value.args) == 2 and not call.value.keywords
+               and all(isinstance(x, ast.Name) for x in call.value.args)
+               and [x.id for x in call.value.args] == ['self', params[1]])
+    if not ok_call:
+        raise Untranslatable(f'{method}: the entry call is not {inner.name}(self, {params[1]})')
+    iparams = [a.arg for a in inner.args.args]
+    if len(iparams) != 2 or inner.args.vararg or inner.args.kwarg or inner.args.kwonlyargs or inner.decorator_list:
+        raise Untranslatable(f'{inner.name}: signature')
+    cur, inc = iparams
+    ibody = strip(inner.body)
+    if len(ibody) != 1 or not isinstance(ibody[0], ast.For):
+        raise Untranslatable(f'{inner.name}: expected a single for loop')
+    loop = ibody[0]
+    it = loop.iter
+    if not (isinstance(it, ast.Call) and isinstance(it.func, ast.Attribute) and it.func.attr == 'items'
+            and isinstance(it.func.value, ast.Name) and it.func.value.id == inc and not it.args and not it.keywords):
+        raise Untranslatable(f'{inner.name}: loop is not over {inc}.items()')
+    tgt = loop.target
+    if not (isinstance(tgt, ast.Tuple) and len(tgt.elts) == 2 and all(isinstance(x, ast.Name) for x in tgt.elts)):
+        raise Untranslatable(f'{inner.name}: loop target')
+    if loop.orelse:
+        raise Untranslatable(f'{inner.name}: for-else')
+    k, v = tgt.elts[0].id, tgt.elts[1].id
+    if len({cur, inc, k, v, 'self'}) != 5:
+        raise Untranslatable(f'{inner.name}: name clash')
+    return Loop(inner.name, cur, k, v, known).block(loop.body)
+
+
+def check_are_all_this_type(repo):
+    tree = ast.parse((repo / 'pypyr' / 'utils' / 'types.py').read_text())
+    fn = find(tree.body, ast.FunctionDef, 'are_all_this_type')
+    a = fn.args
+    if len(a.args) != 1 or a.vararg is None or a.kwarg or a.kwonlyargs or a.defaults:
+        raise Untranslatable('are_all_this_type: signature')
+    t, objs = a.args[0].arg, a.vararg.arg
+    body = strip(fn.body)
+    ok = False
+    if len(body) == 1 and isinstance(body[0], ast.Return):
+        r = body[0].value
+        if isinstance(r, ast.Call) and isinstance(r.func, ast.Name) and r.func.id == 'all' and len(r.args) == 1 \
+                and isinstance(r.args[0], ast.GeneratorExp) and len(r.args[0].generators) == 1:
+            g = r.args[0].generators[0]
+            e = r.args[0].elt
+            ok = (isinstance(g.target, ast.Name) and isinstance(g.iter, ast.Name) and g.iter.id == objs
+                  and not g.ifs and not g.is_async
+                  and isinstance(e, ast.Call) and isinstance(e.func, ast.Name) and e.func.id == 'isinstance'
+                  and len(e.args) == 2 and isinstance(e.args[0], ast.Name) and e.args[0].id == g.target.id
+                  and isinstance(e.args[1], ast.Name) and e.args[1].id == t)
+    if not ok:
+        raise Untranslatable('are_all_this_type is not `return all(isinstance(o, T) for o in objects)`')
+
+
+def special_tag_subclasses(repo):
+    tree = ast.parse((repo / 'pypyr' / 'dsl.py').read_text())
+    subs = []
+    for n in tree.body:
+        if isinstance(n, ast.ClassDef) and any(isinstance(b, ast.Name) and b.id == 'SpecialTagDirective'
+                                               for b in n.bases):
+            subs.append(n.name)
+    return sorted(subs)
+
+
+def step_src(repo, modname):
+    tree = ast.parse((repo / 'pypyr' / 'steps' / f'{modname}.py').read_text())
+    fn = find(tree.body, ast.FunctionDef, 'run_step')
+    if [a.arg for a in fn.args.args] != ['context']:
+        raise Untranslatable(f'{modname}.run_step: signature')
+
+    def ctx_item(e):
+        if isinstance(e, ast.Subscript) and isinstance(e.value, ast.Name) and e.value.id == 'context' \
+                and isinstance(e.slice, ast.Constant) and isinstance(e.slice.value, str):
+            return e.slice.value
+        raise Untranslatable(f'{modname}: expected context[<literal>], got ' + ast.unparse(e))
+
+    assert_key = method = arg_key = None
+    len_key = None
+    phase = 0
+    for st in strip(fn.body):
+        if not (isinstance(st, ast.Expr) and isinstance(st.value, ast.Call)
+                and isinstance(st.value.func, ast.Attribute) and isinstance(st.value.func.value, ast.Name)):
+            raise Untranslatable(f'{modname}: statement ' + ast.unparse(st)[:60])
+        c = st.value
+        obj, attr = c.func.value.id, c.func.attr
+        if obj == 'logger':
+            if c.keywords:
+                raise Untranslatable(f'{modname}: logger keywords')
+            for a in c.args:
+                if isinstance(a, ast.Constant):
+                    continue
+                if isinstance(a, ast.Call) and isinstance(a.func, ast.Name) and a.func.id == 'len' \
+                        and len(a.args) == 1 and not a.keywords and phase == 2 and len_key is None:
+                    len_key = ctx_item(a.args[0])      # evaluated (and may raise) after the merge
+                    continue
+                raise Untranslatable(f'{modname}: logger argument ' + ast.unparse(a))
+        elif obj == 'context' and attr == 'assert_key_has_value' and phase == 0:
+            kw = {k.arg: k.value for k in c.keywords}
+            if c.args or set(kw) != {'key', 'caller'} or not isinstance(kw['key'], ast.Constant) \
+                    or not isinstance(kw['key'].value, str) \
+                    or not (isinstance(kw['caller'], ast.Name) and kw['caller'].id == '__name__'):
+                raise Untranslatable(f'{modname}: assert_key_has_value arguments')
+            assert_key = kw['key'].value
+            phase = 1
+        elif obj == 'context' and phase == 1 and len(c.args) == 1 and not c.keywords:
+            method, arg_key = attr, ctx_item(c.args[0])
+            phase = 2
+        else:
+            raise Untranslatable(f'{modname}: call ' + ast.unparse(c)[:60])
+    if phase != 2:
+        raise Untranslatable(f'{modname}: incomplete')
+    lk = 'None' if len_key is None else f'(Some {coq_str(len_key)})'
+    return (f'{{| ss_assert_key := {coq_str(assert_key)}; ss_method := {coq_str(method)}; '
+            f'ss_arg_key := {coq_str(arg_key)}; ss_len_key := {lk} |}}')
+
+
+def definition(name, ty, thunk):
+    try:
+        return f'Definition {name} : {ty} :=\n  {thunk()}.\n'
+    except Untranslatable as e:
+        return f'(* NOT TRANSLATED: {str(e).replace("*)", "* )")} *)\nDefinition {name}_UNTRANSLATED := tt.\n'
+    except (OSError, SyntaxError) as e:
+        return f'(* NOT TRANSLATED: {type(e).__name__} *)\nDefinition {name}_UNTRANSLATED := tt.\n'
+
+
+def generate(repo):
+    parts = ['(** Gen/GenC10.v - GENERATED by tools/py2coq_c10.py from pypyr/context.py, pypyr/utils/types.py,\n'
+             '    pypyr/dsl.py, pypyr/steps/contextmerge.py, pypyr/steps/default.py.  Do not edit. *)\n'
+             'From PV Require Import Merge.\n'
+             'Open Scope string_scope.\n']
+    known = set()
+    ctx_tree = None
+    try:
+        ctx_tree = ast.parse((repo / 'pypyr' / 'context.py').read_text())
+        imps = imports_of(ctx_tree)
+        known = set(BUILTIN_CLASSES)
+        for name, mod in IMPORTED_CLASSES.items():
+            if imps.get(name) == mod:
+                known.add(name)
+        shadow = {n.name for n in ctx_tree.body if isinstance(n, (ast.ClassDef, ast.FunctionDef))}
+        shadow |= {t.id for n in ctx_tree.body if isinstance(n, ast.Assign) for t in n.targets
+                   if isinstance(t, ast.Name)}
+        known -= shadow
+        if imps.get('types') != 'pypyr.utils':
+            known = set()
+    except (OSError, SyntaxError):
+        pass
+
+    def body(method):
+        def go():
+            if ctx_tree is None:
+                raise Untranslatable('pypyr/context.py does not parse')
+            check_are_all_this_type(repo)
+            return loop_body(ctx_tree, method, known)
+        return go
+
+    parts.append('(* Context.merge: the body of `for k, v in add_me.items()` in merge_recurse *)\n'
+                 + definition('gen_merge_body', 'list pstmt', body('merge')))
+    parts.append('(* Context.set_defaults: the body of the loop in defaults_recurse *)\n'
+                 + definition('gen_defaults_body', 'list pstmt', body('set_defaults')))
+    parts.append('(* pypyr/dsl.py: the classes derived from SpecialTagDirective *)\n'
+                 + definition('gen_special_tag_classes', 'list string',
+                              lambda: coq_list([coq_str(x) for x in special_tag_subclasses(repo)])))
+    parts.append('(* pypyr/steps/contextmerge.py run_step *)\n'
+                 + definition('gen_contextmerge_step', 'step_src', lambda: step_src(repo, 'contextmerge')))
+    parts.append('(* pypyr/steps/default.py run_step *)\n'
+                 + definition('gen_default_step', 'step_src', lambda: step_src(repo, 'default')))
+    return '\n'.join(parts)
+
+
+if __name__ == '__main__':
+    text = generate(REPO)
+    if not OUT.exists() or OUT.read_text() != text:
+        OUT.write_text(text)
